@@ -6,7 +6,9 @@
 export GOFLAGS=-mod=mod GOPROXY=off GOSUMDB=off GOTOOLCHAIN=local
 D=$(readlink -f "$1"); shift
 W=/tmp/seedcheck-$$
-git -C /repo worktree add --detach -q $W HEAD || exit 2
+BASE=HEAD
+if [ -f "$D/meta.json" ]; then b=$(jq -r '.base_commit // empty' "$D/meta.json"); [ -n "$b" ] && BASE=$b; fi
+git -C /repo worktree add --detach -q $W $BASE || exit 2
 cleanup() { git -C /repo worktree remove --force $W 2>/dev/null; rm -rf /tmp/seedcheck-ev-$$; }
 trap cleanup EXIT
 cd $W
